@@ -477,7 +477,7 @@ def run_om(ctx):
     wide = 3 if ctx.broken else 1
     ctx.rule = ((ctx.rule + ' | ') if ctx.rule else '') + (
         'OM: corpus of witnesses; grammar-generated documents of all 8 family types (omgen) × every single line deletion / duplication / '
-        'adjacent swap / insertion at every gap, token-level mutations, the timestamp of sample i removed / added (3 forms) at every sample position and per family all-but-one / only-one stamped, truncation at EVERY offset of short documents; native-histogram-'
+        'adjacent swap / insertion at every gap, token-level mutations, the timestamp of sample i removed / added (3 forms) at every sample position and per family all-but-one / only-one stamped, truncation at EVERY offset of short documents; a quoted token placed in every region of a sample line (name, label name / value, value, timestamp, exemplar label name / value, exemplar value / timestamp, trailing) with the line ending at every position inside it followed by 0..3 backslashes; native-histogram-'
         'shaped documents; unstructured strings over the format\'s special characters incl. non-ASCII whitespace and Unicode digits; each '
         'input parsed twice under a watchdog; non-trivial = distinct text that is accepted or longer than 8 characters')
     corecheck.run(ctx, 300 if quick else 5000)
@@ -554,9 +554,45 @@ def run_om(ctx):
                 t += rng.choice(['\n# EOF\n', '\n# EOF', '\n'])
             b.doc(t, rng.random() < 0.2, 'unstructured')
         b.flush()
+        # 6. lines that end inside a quoted token, in every region of a sample line
+        quote_cut(ctx, b, rng, (1 if quick else 12) * wide)
     finally:
         set_legacy(False)
         b.close()
+
+
+def quote_cut_docs(rng, line):
+    """the documents one cut line is tried in: as the unterminated last line, before '# EOF', (sometimes) before another sample;
+    under the TYPE line its name asks for (mostly) or bare"""
+    head = ''
+    if rng.random() < 0.7:
+        if 'a_total' in line[:12]:
+            head = '# TYPE a counter\n' + rng.choice(['', '# HELP a help\n'])
+        elif line.startswith('a_bucket'):
+            head = '# TYPE a histogram\n'
+        elif line.startswith('g'):
+            head = '# TYPE g gauge\n'
+    out = [head + line, head + line + '\n# EOF\n']
+    if rng.random() < 0.2:
+        out.append(head + line + '\n' + rng.choice(['a_total 2', 'g 1', '# TYPE b gauge', '"']) + '\n# EOF\n')
+    return out
+
+
+def quote_cut(ctx, b, rng, per_region):
+    """a quoted token in every region of a sample line (name, label name, label value, value, timestamp position, exemplar label
+    name / value, exemplar value, exemplar timestamp, trailing junk) × five placements relative to the region's own token; the
+    line ENDS at every position inside that token, then 0..3 backslashes (odd / even runs inside the still-open quote)"""
+    fn_texts = []
+    for region, placement, kind, line in omgen.quoted_region_lines(rng, per_region):
+        ctx.count('om:quote-cut:' + region)
+        for text in quote_cut_docs(rng, line):
+            b.doc(text, rng.random() < 0.15, 'quote-cut:' + kind)
+        if rng.random() < (0.12 if ctx.tier == 'quick' else 0.3):
+            fn_texts.append(line)
+        if len(b.reqs) > 1500:
+            b.flush()
+    fn_suite(b, rng, fn_texts)
+    b.flush()
 
 
 def _real_lines(text):
